@@ -130,6 +130,11 @@ fn shapes(thorough: bool) -> Vec<Shape> {
         Shape { name: "data-nested-by-pop-wrap-push-print", build: |d| format!("make a get [[]] make i get 0 jasi (i small pass {d}) start a.push([a.pop()]) i get i add 1 end shout(to_string(a).len())"), expect: None, max_pow: mid },
         Shape { name: "data-nested-by-pop-into-variable", build: |d| format!("make a get [[]] make x get [] make i get 0 jasi (i small pass {d}) start x get [a.pop()] a.push(x.pop()) a.push([a.pop()]) i get i add 1 end make c get a shout(c.len())"), expect: Some(|_| "1".into()), max_pow: mid },
         Shape { name: "data-nested-by-pop-in-function", build: |d| format!("make a get [[]] do w() start return [a.pop()] end make i get 0 jasi (i small pass {d}) start a.push(w()) i get i add 1 end shout(a.len())"), expect: Some(|_| "1".into()), max_pow: mid },
+        // a 100-deep literal assigned into the innermost slot of another: 100 more levels per iteration at linear cost
+        Shape { name: "data-nested-by-assign-into-deep-literal", build: |d| {
+            let lit = format!("{}0{}", "[".repeat(100), "]".repeat(100));
+            format!("make s get {lit}\nmake k get 0\njasi (k small pass {d}) start\nmake t get {lit}\nt{} get s\ns get t\nk get k add 1\nend\nshout(k)", "[0]".repeat(100))
+        }, expect: Some(count), max_pow: 10 },
         Shape { name: "data-nested-array-pass", build: |d| format!("do id(p) start return p end make a get [] make i get 0 jasi (i small pass {d}) start a get id([a]) i get i add 1 end shout(i)"), expect: Some(count), max_pow: mid },
     ];
     // unbounded recursion (no depth parameter): d is only a size of irrelevant padding
@@ -272,9 +277,13 @@ impl Space for DepthSpace {
                 continue;
             }
             let (mut lo, mut hi) = (lo_d, hi_d);
-            while hi - lo > 1 {
+            let mut slow = false;
+            // an expensive shape is only located to within 64 levels (stated in the evidence sample)
+            while hi - lo > if slow { 64 } else { 1 } {
                 let mid = lo + (hi - lo) / 2;
+                let t_probe = std::time::Instant::now();
                 let c = self.probe(shape, build, mid, &mut runs);
+                slow |= t_probe.elapsed().as_millis() > 250;
                 if matches!(c, Class::Crash(_) | Class::WrongValue(_)) {
                     return bad(mid, &c, runs);
                 }
@@ -284,10 +293,14 @@ impl Space for DepthSpace {
                     hi = mid;
                 }
             }
-            // dense window around the switch point
+            // dense window around the switch point (narrow where a single run is expensive:
+            // the data shapes cost time quadratic in the depth)
             if !matches!(hi_c, Class::Memory | Class::Timeout) {
-                let from = hi.saturating_sub(self.window).max(1);
-                for d in from..=hi + self.window {
+                let t_probe = std::time::Instant::now();
+                let _ = self.probe(shape, build, hi, &mut runs);
+                let window = if t_probe.elapsed().as_millis() > 250 { 2 } else { self.window };
+                let from = hi.saturating_sub(window).max(1);
+                for d in from..=hi + window {
                     let c = self.probe(shape, build, d, &mut runs);
                     if matches!(c, Class::Crash(_) | Class::WrongValue(_)) {
                         return bad(d, &c, runs);
